@@ -28,6 +28,7 @@ import (
 	"sort"
 	"strings"
 	"sync"
+	"sync/atomic"
 	"time"
 
 	"github.com/onsi/gomega"
@@ -246,7 +247,7 @@ func within(d time.Duration, f func()) bool {
 	}
 }
 
-const opLimit = 30 * time.Second
+var opLimit = 30 * time.Second // 120 s on the confirmation run of a hang
 
 func runCluster(nd mock.Node, c chans, sc script) (out outcome) {
 	ok := within(opLimit*2, func() { out = runClusterInner(nd, c, sc) })
@@ -446,7 +447,7 @@ func mkChannels(nd mock.Node, la, lb int) (chans, error) {
 }
 
 func waitVisible(cl *mock.Cluster, n int, c chans) bool {
-	deadline := time.Now().Add(15 * time.Second)
+	deadline := time.Now().Add(90 * time.Second)
 	want := channel.KeysFromUint32([]uint32{c.idx[0], c.dat[0], c.idx[1], c.dat[1], c.free})
 	for {
 		all := true
@@ -467,7 +468,15 @@ func waitVisible(cl *mock.Cluster, n int, c chans) bool {
 	}
 }
 
-func runOne(r *vk.Run, st *stats, cf config, sc script) {
+var (
+	slowSkipped   atomic.Int64
+	confirmMu     sync.Mutex
+	hangConfirmed = map[string]bool{}
+)
+
+func runOne(r *vk.Run, st *stats, cf config, sc script) { runOneMode(r, st, cf, sc, false) }
+
+func runOneMode(r *vk.Run, st *stats, cf config, sc script, confirming bool) {
 	cl := mock.ProvisionCluster(ctx, cf.nodes)
 	hung := false
 	defer func() {
@@ -488,7 +497,7 @@ func runOne(r *vk.Run, st *stats, cf config, sc script) {
 		return
 	}
 	if !waitVisible(cl, cf.nodes, c) {
-		r.HarnessError("channels did not become visible on all nodes within 15 s (%s)", cf)
+		slowSkipped.Add(1) // gossip too slow on a loaded machine: this run decides nothing
 		return
 	}
 	// reference: one cesium engine with the same (non-virtual) channels
@@ -518,6 +527,25 @@ func runOne(r *vk.Run, st *stats, cf config, sc script) {
 				ctxt = "after-an-open-the-single-node-store-refuses"
 			}
 		}
+		confirmMu.Lock()
+		known := hangConfirmed[ctxt]
+		confirmMu.Unlock()
+		if !confirming && !known {
+			// a call that does not return within the limit is reported only if it does not return
+			// on a dedicated second run either (one at a time, four times the limit)
+			confirmMu.Lock()
+			old := opLimit
+			opLimit = 120 * time.Second
+			confirmMu.Unlock()
+			runOneMode(r, st, cf, sc, true)
+			confirmMu.Lock()
+			opLimit = old
+			confirmMu.Unlock()
+			return
+		}
+		confirmMu.Lock()
+		hangConfirmed[ctxt] = true
+		confirmMu.Unlock()
 		report("writer-operation-never-returns:"+ctxt, "a writer operation did not return within %v\n single-node store: %v\n cluster:           %v", opLimit, want, got)
 		return
 	}
@@ -749,7 +777,8 @@ func main() {
 	r.Set("reads_compared", st.reads)
 	r.Set("unknown_channel_opens_refused", st.missingOK)
 	r.Set("distinct_nontrivial", len(oc))
-	r.Set("exhaustive", skipped == 0)
+	r.Set("runs_skipped_for_slow_gossip", int(slowSkipped.Load()))
+	r.Set("exhaustive", skipped == 0 && slowSkipped.Load() == 0)
 	r.Set("configurations", len(cfs))
 	r.Set("scripts", len(scs))
 	r.Set("rule", "configurations: nodes 1-3 x leaseholder of group A x leaseholder of group B x writer gateway (free virtual channel always present), iterators through every node; scripts: gen() (16 write scripts: one/two sessions, one or both groups, frames of one group / mixed / mixed with the free channel, explicit and auto commit, uncommitted tail, later / back-filling / overlapping second session, a session running into committed data at commit time, frames with entries filtered out by KeepKeys); per run: acknowledgement pattern vs a single cesium engine, every leaseholder's engine vs that engine, 4 key sets x 6 traversals through every node vs that engine, opens on 3 unknown keys through every gateway. distinct_nontrivial = distinct acknowledgement patterns")
